@@ -5,7 +5,7 @@ CONSTANTS
   Directed = @DIRECTED@
   Weights = @WEIGHTS@
   Emit = @EMIT@
-INVARIANTS TypeOK Closed Canon Mirror Symm RevLaw EdgeWeightLaw EmitState
+INVARIANTS TypeOK Closed Canon Mirror Symm RevLaw EdgeWeightLaw ViewBase ViewUndirect ViewComplement EmitState
 PROPERTIES PanicLeavesUnchanged RemoveNodeExact
 VIEW View
 CHECK_DEADLOCK FALSE
